@@ -182,8 +182,18 @@ class MetadataManager:
                         f"but found: {current.last_updated_ms}"
                     )
 
-                # PHASE 2: Prepare new version
-                new_metadata.last_updated_ms = int(datetime.now().timestamp() * 1000)
+                # PHASE 2: Prepare new version.
+                # (current_snapshot_id, last_updated_ms) is the OCC stamp checked
+                # above, so it must differ between ANY two committed versions. A
+                # metadata-only commit keeps current_snapshot_id, and two commits
+                # can fall into the same millisecond (coarse or stepped-back
+                # clock): with a plain now() a committer holding the older of two
+                # equally-stamped versions as its base passed validation and
+                # overwrote the newer one. Strictly increasing closes that.
+                now_ms = int(datetime.now().timestamp() * 1000)
+                if current is not None:
+                    now_ms = max(now_ms, current.last_updated_ms + 1)
+                new_metadata.last_updated_ms = now_ms
 
                 # Read current version (and, on CAS backends, the hint's ETag so
                 # the commit point below can be a true compare-and-swap).
